@@ -200,9 +200,20 @@ def ppid_map_facts(tree):
     return rfind, off, idx
 
 
+def ppid_map_skips_gone(tree):
+    """True iff the same `try:` has quiet handlers covering BOTH FileNotFoundError (ENOENT) and
+    ProcessLookupError (ESRCH): a process that exits between pids() and the read is skipped."""
+    return all(_ppid_map_quiet(tree, {name, "OSError", "EnvironmentError", "IOError", "Exception", "BaseException"})
+               for name in ("FileNotFoundError", "ProcessLookupError"))
+
+
 def ppid_map_skips_denied(tree):
     """True iff the `try:` around the open/read of /proc/<pid>/stat in ppid_map() has a handler that
     covers PermissionError (EACCES/EPERM) and whose body neither raises nor returns."""
+    return _ppid_map_quiet(tree, {"PermissionError", "OSError", "EnvironmentError", "IOError", "Exception", "BaseException"})
+
+
+def _ppid_map_quiet(tree, covering):
     fn = extract.find_def(tree, "ppid_map")
     tries = [n for n in ast.walk(fn) if isinstance(n, ast.Try)
              and any(isinstance(c, ast.Call) and extract.dotted(c.func) in ("open_binary", "bcat", "open")
@@ -216,7 +227,7 @@ def ppid_map_skips_denied(tree):
             names = {extract.dotted(e) for e in h.type.elts}
         else:
             names = {extract.dotted(h.type)}
-        if names & {"PermissionError", "OSError", "EnvironmentError", "IOError", "Exception", "BaseException"}:
+        if names & covering:
             quiet = not any(isinstance(x, (ast.Raise, ast.Return)) for b in h.body for x in ast.walk(b))
             return quiet
     return False
@@ -309,6 +320,8 @@ def facts(snap, F):
     F.try_add("ppidMapIdx", "Nat", lambda: extract.lean_nat(pmf()[2]), "ppid_map(): `int(dset[N])`")
     F.try_add("ppidMapSkipsDenied", "Bool", lambda: extract.lean_bool(ppid_map_skips_denied(linux)),
               "ppid_map(): an unreadable /proc/<pid>/stat (PermissionError) is skipped, not raised")
+    F.try_add("ppidMapSkipsGone", "Bool", lambda: extract.lean_bool(ppid_map_skips_gone(linux)),
+              "ppid_map(): a listed PID whose /proc/<pid>/stat is gone (FileNotFoundError and ProcessLookupError) is skipped, not raised")
     F.try_add("statRfind", "Bool", lambda: extract.lean_bool(sff()[0]), "_parse_stat_file(): rfind (true) or find (false)")
     F.try_add("statOffset", "Nat", lambda: extract.lean_nat(sff()[1]), "_parse_stat_file(): `data[rpar + N:]`")
     F.try_add("statPpidIdx", "Nat", lambda: extract.lean_nat(sff()[2]), "_parse_stat_file(): ret['ppid'] = fields[N]")
